@@ -509,6 +509,9 @@ class SDict(Sym):
         return f"<dict {self.name}>"
 
 
+QUAL_ALIAS: Dict[str, str] = {}
+
+
 class SFunc(Sym):
     def __init__(self, mod: Any, node: ast.AST, self_obj: Any = None, cls: Any = None, closure: Any = None,
                  qual: str = ""):
@@ -517,7 +520,8 @@ class SFunc(Sym):
         self.self_obj = self_obj
         self.cls = cls
         self.closure = closure
-        self.qual = qual or getattr(node, "name", "<lambda>")
+        q0 = qual or getattr(node, "name", "<lambda>")
+        self.qual = QUAL_ALIAS.get(q0, q0)      # a known function that moved between class and module keeps its known name
 
     def __repr__(self) -> str:
         return f"<func {self.qual}>"
